@@ -3,4 +3,7 @@
 namespace vh {
 // Runs every read-only query on the model and returns {queryName: content id} (or one overall id when !asJson).
 std::string battery(nifly::NifFile& nif, ContentIds& ids, bool asJson = true);
+// the answers that name things instead of numbering them (they do not move when a save sorts or prunes blocks): per node
+// its parent's name, per shape its parent, bones, skeleton root, shader, textures - one content id
+long long batteryNames(nifly::NifFile& nif, ContentIds& ids);
 }
